@@ -18,6 +18,7 @@ import Golib.Udp.Mask
 import Golib.Udp.WFB
 import Golib.Udp.Gates
 import Golib.Udp.ProcessThm
+import Golib.Udp.Route
 
 namespace C07
 open Udp Udp.Layout Prim
@@ -292,6 +293,55 @@ theorem pool_process_no_residue (t : PackT) (ht : t ∈ allPacks) (evs : List Po
         | some a, some b => ∀ f ∈ t.fieldNames, a f = b f
         | _, _ => False) :=
   Udp.pool_process_no_residue t (clear_total t ht) (process_reads_fields t ht) evs u
+
+/-! ### pools of several types at once (the harness stage `route`) -/
+
+theorem model_routing_inj :
+    ∀ t ∈ allPacks, ∀ u ∈ allPacks, modelRouting.createPool t.name = modelRouting.createPool u.name → t.name = u.name := by
+  decide
+
+/-- **pool routing**: for any routing of types to pools in which ClosePack and CreatePack name the same
+    pool for every type and no two types share a pool (the regenerated switch tables satisfy this:
+    `C07Gen.gen_routing_same`, `gen_routing_inj`), every history of CreatePack / ClosePack / drops over
+    all pools — any interleaving of types, arbitrary released packs — runs without a type-assertion
+    panic, and every pack handed out for type B is a never-used B on all of B's struct fields -/
+theorem route_clean (R : Routing) (types : List PackT) (hn : (types.map (·.name)).Nodup)
+    (hsame : ∀ t ∈ types, R.closePool t.name = R.createPool t.name)
+    (hinj : ∀ t ∈ types, ∀ u ∈ types, R.createPool t.name = R.createPool u.name → t.name = u.name)
+    (hclr : ∀ t ∈ types, t.clearTotal = true) (evs : List MEv) (hev : ∀ e ∈ evs, evTypeIn types e) :
+    ∃ outs, runM R evs (fun _ => []) = some outs ∧ ∀ out ∈ outs, out.1 ∈ types ∧ CleanOut out :=
+  Udp.route_clean R types hn hsame hinj hclr evs hev
+
+/-- the model's instance: all 19 types, each with its own pool -/
+theorem route_clean_model (evs : List MEv) (hev : ∀ e ∈ evs, evTypeIn allPacks e) :
+    ∃ outs, runM modelRouting evs (fun _ => []) = some outs ∧ ∀ out ∈ outs, out.1 ∈ allPacks ∧ CleanOut out :=
+  Udp.route_clean modelRouting allPacks pool_tables_model.1 (fun _ _ => rfl) model_routing_inj clear_total evs hev
+
+/-- … and whatever the pack is used for next (decode or fill, then Process()) ends as on a never-used pack -/
+theorem route_use_clean (out : PackT × Int × Rec) (hc : CleanOut out) (hr : readsInFields out.1 = true) (u : Use) :
+    (match u.run out.1 out.2.1 out.2.2, u.run out.1 out.2.1 (out.1.clearedRec.set "Ver" (.int out.2.1)) with
+      | none, none => True
+      | some a, some b => ∀ f ∈ out.1.fieldNames, a f = b f
+      | _, _ => False) ∨
+    (match u.run out.1 out.2.1 out.2.2, u.run out.1 out.2.1 (out.1.freshRec.set "Ver" (.int out.2.1)) with
+      | none, none => True
+      | some a, some b => ∀ f ∈ out.1.fieldNames, a f = b f
+      | _, _ => False) := Udp.route_use_clean out hc hr u
+
+/-- the hypothesis is needed: with ACTIVE_STACK filed into the ACTIVE_STACK_1 pool, releasing an
+    active-stack pack and then asking for an ACTIVE_STACK_1 pack panics (type assertion) -/
+theorem finding_misrouting :
+    runM misRouting [.close UdpActiveStackPack (fun _ => .null), .create UdpActiveStackPack1 (some 0) 50100]
+      (fun _ => []) = none := by decide
+
+/-- a history over three types: release a message pack and an end pack, create in another order -/
+example : (runM modelRouting
+    [.close UdpTxMessagePack (Rec.ofList [("Hash", .str [1])] (fun _ => .null)),
+     .close UdpTxEndPack (Rec.ofList [("Host", .str [2])] (fun _ => .null)),
+     .create UdpTxEndPack (some 0) 50100, .create UdpTxSqlPack (some 0) 10101, .create UdpTxMessagePack (some 0) 7]
+    (fun _ => [])).map (fun outs => outs.map fun o => (o.1.name, o.2.2 "Host", o.2.2 "Hash", o.2.2 "Ver")) =
+    some [("UdpTxEndPack", .str [], .null, .int 50100), ("UdpTxSqlPack", .null, .null, .int 10101),
+          ("UdpTxMessagePack", .null, .str [], .int 7)] := by decide
 
 example : processTargets UdpTxEndPack = ["ServiceURL", "McallerUrlHash"] := by decide
 example : processTargets UdpTxErrorPack = [] := by decide
